@@ -10,7 +10,7 @@ from .. import gens
 from ..trace import Trace
 
 RULE = ("Cases: nensembles 1..8 x nprocesses 1..8 x noise_mode {single, flip} x ensemble_noise {0, 0.05, 0.2, 1} x signals of "
-        "256..512 samples (stored as float64 / float32 / int64 / int16) x caps {1,2,3} and caps above what the members yield {9,14}, the global numpy RNG seeded with a drawn value before every call; the same grid for "
+        "256..512 samples (stored as float64 / float32 / int64 / int16) x IMF / envelope / extrema option sets {default, 4 custom} x caps {1,2,3} and caps above what the members yield {9,14}, the global numpy RNG seeded with a drawn value before every call; the same grid for "
         "complete_ensemble_sift. Oracle, from the guarded in-tree trace of the per-member worker (member index, pid, the "
         "noise array actually added): (a) one record per member and stage, the members' noise arrays pairwise different "
         "(digest) and pairwise |corr| < 0.5; (b) the output equals the per-IMF mean over members of sift(x +- noise_i, cap) "
@@ -31,7 +31,24 @@ def ens_case(draw):
            'dtype': draw(st.sampled_from(['f8', 'f8', 'f8', 'f4', 'i8', 'i2']))}
     return {'sig': sig, 'nens': draw(st.integers(1, 8)), 'nproc': draw(st.integers(1, 8)),
             'mode': draw(st.sampled_from(['single', 'flip'])), 'noise': draw(st.sampled_from([0.0, 0.05, 0.2, 1.0])),
-            'cap': draw(st.sampled_from([1, 2, 3, 3, 9, 14])), 'seed': draw(st.integers(0, 2**31 - 1))}
+            'cap': draw(st.sampled_from([1, 2, 3, 3, 9, 14])), 'seed': draw(st.integers(0, 2**31 - 1)),
+            'stage': draw(st.sampled_from([0, 0, 1, 2, 3, 4]))}
+
+
+# option sets handed to the ensemble routine; a member is the decomposition of x +- noise *with the requested options*
+STAGE_OPTS = [
+    {},
+    {'imf_opts': {'sd_thresh': 0.2}, 'envelope_opts': {'interp_method': 'pchip'},
+     'extrema_opts': {'pad_width': 4, 'parabolic_extrema': True}},
+    {'extrema_opts': {'pad_width': 1}},
+    {'imf_opts': {'stop_method': 'fixed', 'max_iters': 3}},
+    {'envelope_opts': {'interp_method': 'mono_pchip'}, 'extrema_opts': {'mag_pad_opts': {'mode': 'mean', 'stat_length': 2}}},
+]
+
+
+def stage_opts(case):
+    import copy
+    return copy.deepcopy(STAGE_OPTS[case.get('stage', 0)])
 
 
 def digest(a):
@@ -54,11 +71,12 @@ def check_distinct(noises, sig, N, level, correlation=True):
                     raise Violation(sig + '/members-noise-correlated', 'members %d,%d corr %.3f' % (i, j, c))
 
 
-def member_decomposition(emd, X, noise, mode, cap):
-    a = np.asarray(emd.sift.sift(X + noise, max_imfs=cap))
+def member_decomposition(emd, X, noise, mode, cap, opts=None):
+    import copy
+    a = np.asarray(emd.sift.sift(X + noise, max_imfs=cap, **copy.deepcopy(opts or {})))
     if mode == 'single':
         return a
-    b = np.asarray(emd.sift.sift(X - noise, max_imfs=cap))
+    b = np.asarray(emd.sift.sift(X - noise, max_imfs=cap, **copy.deepcopy(opts or {})))
     c = min(a.shape[1], b.shape[1])
     return (a[:, :c] + b[:, :c]) / 2
 
@@ -73,7 +91,8 @@ def oracle_ensemble(case, rec):
     try:
         with Trace() as tr:
             out = np.asarray(emd.sift.ensemble_sift(xt.copy(), nensembles=case['nens'], ensemble_noise=case['noise'],
-                                                    noise_mode=case['mode'], nprocesses=case['nproc'], max_imfs=case['cap']))
+                                                    noise_mode=case['mode'], nprocesses=case['nproc'], max_imfs=case['cap'],
+                                                    **stage_opts(case)))
     except emd.support.EMDSiftCovergeError:
         raise Discard('convergence error')
     except Exception as e:
@@ -92,7 +111,7 @@ def oracle_ensemble(case, rec):
         raise Violation('C08/ensemble_sift/shape-or-nonfinite', repr(out.shape))
     scale = np.abs(x).max() or 1.0
     try:
-        members = [member_decomposition(emd, x[:, None], nz, case['mode'], case['cap']) for nz in noises]
+        members = [member_decomposition(emd, x[:, None], nz, case['mode'], case['cap'], stage_opts(case)) for nz in noises]
     except emd.support.EMDSiftCovergeError:
         raise Discard('convergence error in the recomputation')
     c = min(m.shape[1] for m in members)
@@ -103,7 +122,7 @@ def oracle_ensemble(case, rec):
     if dev > 1e-12:
         raise Violation('C08/ensemble_sift/not-mean-of-members/%s/%s' % (case['mode'], tag), 'rel dev %.3g' % dev)
     if case['noise'] == 0:
-        plain = np.asarray(emd.sift.sift(x.copy(), max_imfs=case['cap']))
+        plain = np.asarray(emd.sift.sift(x.copy(), max_imfs=case['cap'], **stage_opts(case)))
         if plain.shape != out.shape or np.abs(plain - out).max() / scale > 1e-12:
             raise Violation('C08/ensemble_sift/zero-noise-differs-from-classic-sift', '%r vs %r' % (plain.shape, out.shape))
         rec.cls('zero-noise')
@@ -112,6 +131,7 @@ def oracle_ensemble(case, rec):
     rec.cls('worker_pids=%d' % len(pids))
     rec.cls('assignment=%s' % (assign,))
     rec.cls('mode=' + case['mode'])
+    rec.cls('stage-options=%s' % ('default' if not STAGE_OPTS[case.get('stage', 0)] else 'custom'))
     return case['nproc'] >= 2 and case['nens'] >= 2 and len(pids) >= 2
 
 
@@ -131,7 +151,8 @@ def oracle_complete(case, rec):
     try:
         with Trace() as tr:
             out = emd.sift.complete_ensemble_sift(xt.copy(), nensembles=case['nens'], ensemble_noise=case['noise'],
-                                                  noise_mode=case['mode'], nprocesses=case['nproc'], max_imfs=case['cap'])
+                                                  noise_mode=case['mode'], nprocesses=case['nproc'], max_imfs=case['cap'],
+                                                  **stage_opts(case))
     except emd.support.EMDSiftCovergeError:
         raise Discard('convergence error')
     except Exception as e:
@@ -168,7 +189,7 @@ def oracle_complete(case, rec):
         else:
             check_distinct(noises, 'C08/complete_ensemble_sift/' + tag, N, case['noise'], correlation=True)
         try:
-            members = [member_decomposition(emd, resid[:, None], nz, case['mode'], 1)[:, 0] for nz in noises]
+            members = [member_decomposition(emd, resid[:, None], nz, case['mode'], 1, stage_opts(case))[:, 0] for nz in noises]
         except emd.support.EMDSiftCovergeError:
             raise Discard('convergence error in the recomputation')
         exp = np.mean(members, axis=0)
@@ -180,6 +201,7 @@ def oracle_complete(case, rec):
     rec.cls('worker_pids=%d' % len(pids))
     rec.cls('stages=%d' % imf.shape[1])
     rec.cls('mode=' + case['mode'])
+    rec.cls('stage-options=%s' % ('default' if not STAGE_OPTS[case.get('stage', 0)] else 'custom'))
     return case['nproc'] >= 2 and case['nens'] >= 2 and len(pids) >= 2
 
 
